@@ -59,6 +59,7 @@ ASSUMPTIONS = [
 ]
 
 TIMEOUT = 20.0
+CLOCK_JUMP = 3600.0   # seconds the loop clock is advanced while a handler waits for the lock (oracle D)
 
 
 def generate(ctx):
@@ -554,6 +555,96 @@ async def _rollback_sessions(ctx, nsession, fails):
 
 
 # ---------------------------------------------------------------------------------------------
+# oracle I: a raising point injected at every SQL statement of a handler's transaction
+# ---------------------------------------------------------------------------------------------
+
+
+class _InjectedFault(Exception):
+    """What the k-th statement of the request raises (stands for disk full, SQLITE_BUSY, a bug)."""
+
+
+@contextlib.contextmanager
+def _inject_at(state):
+    """Wrap DBSession._run: the statement number state['at'] issued by the task state['task'] raises.
+
+    state['n'] counts the statements of that task; state['hit'] tells whether the fault fired."""
+    from stepup.core.sqlite3 import DBSession
+    orig = DBSession._run
+
+    def _run(self, query, args, *, many):
+        if asyncio.current_task() is state["task"]:
+            k = state["n"]
+            state["n"] += 1
+            if k == state["at"]:
+                state["hit"] = (k, " ".join(query.split())[:70])
+                raise _InjectedFault(f"injected at statement {k}")
+        return orig(self, query, args, many=many)
+
+    DBSession._run = _run
+    try:
+        yield
+    finally:
+        DBSession._run = orig
+
+
+async def _inject_cases(ctx, ncase, fails, max_points=48):
+    """For one request: every statement index k in turn raises (same world: a rolled-back attempt must leave
+    nothing behind, so the next attempt starts from the same store); then the request runs undisturbed and the
+    result is compared with a twin world that only ever saw the undisturbed request."""
+    rng = ctx.rng
+    for _ in range(ncase):
+        for _ in range(50):
+            kind, expect, req = gen_request(rng, False)
+            if kind not in ("unknown_job", "start_build_ok", "release_ok"):
+                break
+        async with World() as w:
+            w.h.workflow.dir_queue = asyncio.Queue()
+            state = {"task": None, "n": 0, "at": -1, "hit": None}
+
+            async def attempt(at):
+                state.update(task=asyncio.current_task(), n=0, at=at, hit=None)
+                with _inject_at(state):
+                    return await w.call(req)
+            # how many statements does the undisturbed request issue? (twin world)
+            async with World() as w2:
+                st2 = {"task": asyncio.current_task(), "n": 0, "at": -1, "hit": None}
+                with _inject_at(st2):
+                    reply2 = await w2.call(req)
+                ref = w2.dump(True)
+                nstmt = st2["n"]
+            points = list(range(nstmt)) if nstmt <= max_points else sorted(rng.sample(range(nstmt), max_points))
+            before = w.dump()
+            for k in points:
+                reply = await attempt(k)
+                after = w.dump()
+                if state["hit"] is None:
+                    ctx.count("I:fault_point_not_reached")   # nondeterministic statement count: not expected
+                    break
+                ctx.case(("I", kind, json.dumps(req), k), True)
+                ctx.count("I:injected_faults")
+                if reply[0] != "err":
+                    ctx.count("I:fault_swallowed_by_handler")
+                if after != before:
+                    if w.dump(True) == ref:
+                        # the fault hit after the (only) writing transaction was committed, e.g. in the read-only
+                        # second block of amend_step: the request took full effect, which the text allows
+                        ctx.count(f"I:fault_after_commit_full_effect:{req['name']}")
+                        break
+                    fails.append(("inject", kind, {"request": req, "fault_at_statement": k, "statement": state["hit"][1],
+                                                   "statements_of_request": nstmt, "reply": reply,
+                                                   "diff": dump_diff(before, after)}))
+                    break
+            else:
+                reply = await attempt(-1)
+                got = w.dump(True)
+                ctx.count("I:requests")
+                ctx.count("I:dir_queue_entries_left_by_rolled_back_attempts", w.h.workflow.dir_queue.qsize())
+                if got != ref or reply != reply2:
+                    fails.append(("inject-residue", kind, {"request": req, "faults_at": points, "reply": reply,
+                                                           "reply_without_faults": reply2, "diff": dump_diff(ref, got)}))
+
+
+# ---------------------------------------------------------------------------------------------
 # oracle S: concurrent handlers versus the sequential order of lock acquisition
 # ---------------------------------------------------------------------------------------------
 
@@ -675,7 +766,39 @@ def _frame(call_id, req):
     return _encode_message(call_id, _encode_body(RPCCall(req["name"], tuple(req["args"]), {})))
 
 
-async def _serve_frames(w, frames, mode, hold_lock):
+def _jump_clock(seconds):
+    """Advance the clock of the running event loop by `seconds` (for good: the offset stays).
+
+    Every timer that was armed before the jump and is due within `seconds` fires at the next turn of
+    the loop. This is how the disconnect oracle lets 'a long time' pass while a handler waits for the
+    database lock after its peer went away: a grace period / timeout anywhere between the receive loop
+    and the handler (asyncio.timeout, wait_for, call_later) expires, without any real waiting."""
+    loop = asyncio.get_running_loop()
+    if not hasattr(loop, "_c15_clock_offset"):
+        base = loop.time
+        loop._c15_clock_offset = 0.0
+        loop.time = lambda: base() + loop._c15_clock_offset
+    loop._c15_clock_offset += seconds
+
+
+def _run_guarded(coro, seconds):
+    """asyncio.run with a wall-clock guard. Not asyncio.wait_for: its timer runs on the loop clock, which the
+    disconnect oracle advances by hours."""
+    import threading
+
+    async def runner():
+        task, loop = asyncio.current_task(), asyncio.get_running_loop()
+        timer = threading.Timer(seconds, lambda: loop.call_soon_threadsafe(task.cancel))
+        timer.daemon = True
+        timer.start()
+        try:
+            return await coro
+        finally:
+            timer.cancel()
+    return asyncio.run(runner())
+
+
+async def _serve_frames(w, frames, mode, hold_lock, jump=0.0):
     """Feed frames + EOF to a real RPCServerConnection over a socketpair."""
     from stepup.core.rpc import RPCServerConnection
     a, b = socket.socketpair()
@@ -700,6 +823,10 @@ async def _serve_frames(w, frames, mode, hold_lock):
         await asyncio.sleep(0.001)
     noticed = conn._stop_event.is_set()
     inflight = len(conn._tasks)
+    if hold_lock and jump:
+        _jump_clock(jump)
+        for _ in range(10):   # expired timers run, and what they cancel gets to notice
+            await asyncio.sleep(0)
     if hold_lock:
         await w.db.__aexit__(None, None, None)
     await asyncio.wait_for(serve, TIMEOUT)
@@ -723,8 +850,10 @@ async def _disconnect_cases(ctx, ncase, fails):
             reqs.append((kind, _retarget(req, job)))
         mode = rng.choice(["close", "close", "shutdown_wr", "reset"])
         hold = rng.random() < 0.7
+        jump = CLOCK_JUMP if hold and rng.random() < 0.75 else 0.0
+        frames = [_frame(i + 1, r) for i, (_, r) in enumerate(reqs)]
         async with World() as w:
-            noticed, inflight = await _serve_frames(w, [_frame(i + 1, r) for i, (_, r) in enumerate(reqs)], mode, hold)
+            noticed, inflight = await _serve_frames(w, frames, mode, hold, jump)
             got = w.dump(True)
         async with World() as w2:
             base = w2.dump(True)
@@ -734,10 +863,19 @@ async def _disconnect_cases(ctx, ncase, fails):
         ctx.count(f"D:{mode}:{'handler_blocked_on_lock' if hold and inflight else 'direct'}")
         if hold and inflight and noticed:
             ctx.count("D:peer_gone_seen_while_handler_in_flight")
+            if jump:
+                ctx.count("D:handler_waited_an_hour_for_the_lock_after_peer_gone")
         if got != ref:
             what = "absent" if got == base else "partial"
+            waited = False
+            if jump:
+                # does it take the long wait? the same case once more without the clock jump
+                async with World() as w3:
+                    await _serve_frames(w3, frames, mode, hold, 0.0)
+                    waited = w3.dump(True) == ref
             fails.append(("disconnect", "+".join(k for k, _ in reqs),
                           {"requests": [r for _, r in reqs], "mode": mode, "handler_blocked_on_lock": hold,
+                           "clock_jump_while_blocked": jump, "only_after_long_wait": waited,
                            "effect": what, "replies_when_connected": replies, "diff": dump_diff(ref, got)}))
 
 
@@ -953,10 +1091,26 @@ def _report(ctx, fails):
                       f"{wit.get('lock_log', [])[:12]}) ended in a database that differs from their sequential "
                       f"application: {json.dumps(wit['diff'])[:700]}")
             name = "oracle-S:concurrent-equals-sequential"
+        elif what == "inject":
+            sig = f"inject:{wit['request']['name']}:store-changed-after-fault-inside-transaction"
+            detail = (f"statement {wit['fault_at_statement']} of {wit['statements_of_request']} ({wit['statement']}) of request "
+                      f"{_short(wit['request'])} raised; reply {wit['reply']}; the database differs from before the "
+                      f"request: {json.dumps(wit['diff'])[:700]}")
+            name = "oracle-I:fault-at-any-statement-rolls-back"
+        elif what == "inject-residue":
+            sig = f"inject:{wit['request']['name']}:rolled-back-attempts-change-a-later-request"
+            detail = (f"request {_short(wit['request'])} after {len(wit['faults_at'])} rolled-back attempts of the same request "
+                      f"replied {wit['reply']} (without earlier attempts: {wit['reply_without_faults']}) and the database "
+                      f"differs from a world that saw the request once: {json.dumps(wit['diff'])[:700]}")
+            name = "oracle-I:rolled-back-attempt-leaves-nothing-behind"
         else:
-            sig = f"disconnect:request-{wit['effect']}-after-peer-gone" + (f":{sc['kind']}" if sc else "")
+            sig = (f"disconnect:request-{wit['effect']}-after-peer-gone" + (f":{sc['kind']}" if sc else "")
+                   + (":only-when-the-handler-waits-long-for-the-lock" if wit.get("only_after_long_wait") else ""))
             detail = (f"frames {wit['requests']}{size} were received in full, then the peer went away "
-                      f"({wit['mode']}); effect is {wit['effect']}: {json.dumps(wit['diff'])[:700]}")
+                      f"({wit['mode']})"
+                      + (f" and the handler waited {wit['clock_jump_while_blocked']:.0f} s (loop clock) for the database "
+                         "lock" if wit.get("clock_jump_while_blocked") else "")
+                      + f"; effect is {wit['effect']}: {json.dumps(wit['diff'])[:700]}")
             name = "oracle-D:received-in-full-applied-in-full"
         if sig in seen:
             continue
@@ -982,6 +1136,7 @@ def _run_oracle(ctx, nsession, nconc, ndisc, deep=False):
             await _scaled_disconnect(ctx, [s for s in full if s <= 1100], fails, only=suspects)
         rest = [h for h in LIST_HANDLERS if h not in suspects]
         await _rollback_sessions(ctx, nsession, fails)
+        await _inject_cases(ctx, max(4, nsession // 6), fails)
         await _scaled_rollback(ctx, sizes, fails, only=rest, budget=None if deep else 25)
         await _concurrent_cases(ctx, nconc, fails)
         await _scaled_concurrent(ctx, sizes if deep else [s for s in sizes if s <= 100 or s in extra], fails,
@@ -991,7 +1146,7 @@ def _run_oracle(ctx, nsession, nconc, ndisc, deep=False):
     import logging
     logging.getLogger("stepup.core.rpc").setLevel(logging.ERROR)
     with _workdir():
-        asyncio.run(asyncio.wait_for(main(), 1100))
+        _run_guarded(main(), 1100)
     _report(ctx, fails)
     ctx.count("oracle_failures", len(fails))
 
@@ -1015,6 +1170,48 @@ def replay(ctx, obj):
         for kind, handler, expect, mk in scaled_scenarios(sc["n"], "r"):
             if kind == sc["kind"] and expect == sc["expect"]:
                 w = dict(w, request=mk(sc["job"]))
+    if w and "fault_at_statement" in w:
+        fails = []
+
+        async def one_fault():
+            async with World() as wd:
+                state = {"task": asyncio.current_task(), "n": 0, "at": w["fault_at_statement"], "hit": None}
+                before = wd.dump()
+                with _inject_at(state):
+                    reply = await wd.call(w["request"])
+                after = wd.dump()
+                print("fault", state["hit"], "reply", reply, "unchanged" if before == after else dump_diff(before, after))
+                async with World() as w2:
+                    await w2.call(w["request"])
+                    ref = w2.dump(True)
+                if after != before and wd.dump(True) != ref:
+                    fails.append(("inject", "replay", {**w, "reply": reply, "diff": dump_diff(before, after)}))
+        with _workdir():
+            asyncio.run(asyncio.wait_for(one_fault(), 120))
+        _report(ctx, fails)
+        return
+    if w and "mode" in w and "requests" in w and not w.get("scaled"):
+        fails = []
+
+        async def one_disc():
+            frames = [_frame(i + 1, r) for i, r in enumerate(w["requests"])]
+            async with World() as wd:
+                await _serve_frames(wd, frames, w["mode"], w["handler_blocked_on_lock"],
+                                    w.get("clock_jump_while_blocked", 0.0))
+                got = wd.dump(True)
+            async with World() as w2:
+                base = w2.dump(True)
+                for r in w["requests"]:
+                    await w2.call(r)
+                ref = w2.dump(True)
+            print("effect", "as when connected" if got == ref else ("absent" if got == base else "partial"))
+            if got != ref:
+                fails.append(("disconnect", "replay", {**w, "effect": "absent" if got == base else "partial",
+                                                       "diff": dump_diff(ref, got)}))
+        with _workdir():
+            _run_guarded(one_disc(), 120)
+        _report(ctx, fails)
+        return
     if not w or "history" not in w or not w.get("request"):
         from translator import gen_structure
         ctx.diag = gen_structure.diagnose()
